@@ -139,7 +139,9 @@ type World struct {
 	Sy *Syncers
 	T0 time.Time
 	// ReleaseClearedAt: virtual time at which, during the last Drain,
-	// no block release was pending any more.
+	// no block release was pending any more: no wake-up pending, no
+	// release writer active and every popped block handed back to the
+	// allocator.
 	ReleaseClearedAt time.Time
 }
 
